@@ -1,0 +1,13 @@
+//go:build verif
+
+// Contracts for the verification machinery in /verif (comment-only; compiled only with -tags verif).
+package exported
+
+// A transaction is a BEACON transaction iff one of its top-level messages is a BEACON message.
+// (Messages nested inside other messages, e.g. authz MsgExec, are not inspected: known finding D8.)
+//@ func CheckIsBeaconTx(tx) (r)
+//@   props C05 C06
+//@   pure
+//@   ensures r == beaTx(tx)
+//@   loop 0: invariant 0 - 1 <= rangeindex && rangeindex < len(msgs) && msgs == txMsgs(tx)
+//@   loop 0: invariant forall j int :: {msgs[j]} 0 <= j && j <= rangeindex ==> !isBeaMsg(msgs[j])
